@@ -200,6 +200,13 @@ func cmdVerify(args []string) int {
 			o.Res = first[o.Script].Res
 		}
 	}
+	if os.Getenv("GOVC_SLOW") != "" {
+		for _, o := range all {
+			if o.Res.Seconds > 1 || o.Res.Answer != "unsat" {
+				fmt.Printf("slow/failed: %-80s %s %s %.1fs %v\n", o.Name, o.Res.Answer, o.Res.Solver, o.Res.Seconds, o.Res.Raw)
+			}
+		}
+	}
 	// group
 	groups := map[string]*oblGroup{}
 	var order []string
